@@ -71,15 +71,31 @@ static unsigned long	g_ents[BT_POOL * BT_MAXK];
 static unsigned char	g_cnts[BT_POOL];
 static int		g_cur;
 
+#ifdef BT_SHAPE
+/* -DBT_SHAPE=r,c0,..,cr[,...]: the key count of every node is a CONSTANT of the job (preorder: a node, then its
+ * nKeys+1 subtrees); keys and entries stay symbolic.  A B-tree operation's structural decisions (split, merge,
+ * rotate, new root) depend on key counts only, so with the counts fixed the verifier walks concrete pointers and the
+ * union of all shapes of a height is that height's whole domain. */
+static const unsigned char bt_shape[] = { BT_SHAPE };
+#define BT_NSHAPE ((int) (sizeof bt_shape / sizeof bt_shape[0]))
+#endif
 static BTree bt_arbitrary(int h, int isroot)
 {
 	int i, me = g_cur++;
 	BTree x = h_alloc(btreeNodeSize(BT_T));
 	x->t = BT_T; x->isLeaf = (h == 1);
+#ifdef BT_SHAPE
+	x->nKeys = me < BT_NSHAPE ? bt_shape[me] : 0;
+#else
 	ASSUME(g_cnts[me] <= BT_MAXK);
 	x->nKeys = g_cnts[me];
+#endif
 	for (i = 0; i < BT_MAXK; i++) { x->part[i].key = g_keys[me * BT_MAXK + i]; x->part[i].entry = (BTreeElt) g_ents[me * BT_MAXK + i]; }
+#ifdef BT_SHAPE
+	if (h > 1) for (i = 0; i <= BT_MAXK; i++) if (i <= x->nKeys) x->part[i].branch = bt_arbitrary(h - 1, 0);
+#else
 	if (h > 1) for (i = 0; i <= BT_MAXK; i++) x->part[i].branch = bt_arbitrary(h - 1, 0);
+#endif
 	return x;
 }
 
@@ -157,6 +173,38 @@ void h_bt_insert(void)
 	VREACH();
 }
 
+#ifdef BT_MODEL_DELETE0
+/* MODULAR over the recursion of btreeDelete0 (definition renamed on every run to btreeDelete0__real, tools/vlib.py
+ * "_rename_def"): the harness calls the real body on the root of a height-2 tree; the calls it makes to btreeDelete0
+ * land on LEAVES and bind to this model of the contract the step relies on:
+ *   precondition  (obligation at every re-entry)  the node is a leaf of this tree with MORE than t-1 keys (so that it
+ *                 stays legal after the removal -- "most of the work is to ensure that t-1 keys remain") and holds k;
+ *   postcondition one pair with key k is removed from that leaf, its entry stored through pe; nothing else changes.
+ * The real leaf case (same function, x->isLeaf) is checked on the real body in btree.delete.h1. */
+static int g_reentries;
+local void btreeDelete0(BTree x, BTreeKey k, BTreeElt *pe, BTreeFreeFun btfree)
+{
+	int i, j, n = x->nKeys, found = 0;
+	(void) btfree;
+	g_reentries++;
+	CHECK("re-entry of btreeDelete0: on a leaf (height-2 tree) that has more than t-1 keys", x->isLeaf && n > BT_T - 1 && n <= BT_MAXK);
+	for (i = 0; i < BT_MAXK; i++) if (!found && i < n && x->part[i].key == k) {
+		found = 1;
+		if (pe) *pe = x->part[i].entry;
+		for (j = i + 1; j < BT_MAXK; j++) if (j < n) x->part[j - 1] = x->part[j];
+	}
+	CHECK("re-entry of btreeDelete0: the key is in that leaf", found);
+	if (found) x->nKeys = n - 1;
+}
+#define btreeDelete0_UNDER_TEST btreeDelete0__real
+/* btreeDeleteX's body, with the real step function called directly */
+static void bt_deleteX(BTree *pr, BTreeKey k, BTreeElt *pe, BTreeFreeFun btfree)
+{
+	btreeDelete0__real(*pr, k, pe, btfree);
+	if ((*pr)->nKeys == 0 && !(*pr)->isLeaf) { BTree r = (*pr)->part[0].branch; btfree(*pr); *pr = r; }
+}
+#endif
+
 void h_bt_delete(void)
 {
 	ARBITRARY_TREE;
@@ -164,7 +212,11 @@ void h_bt_delete(void)
 	BTreeElt out = 0;
 	int kcount0 = COUNT_KEY(root, BT_H, k);
 	ASSUME(kcount0 >= 1);		/* call sites (store.c) delete keys they have just found */
+#ifdef BT_MODEL_DELETE0
+	bt_deleteX(&root, k, &out, h_free);	/* btreeDeleteX itself (3 lines) is on the real code in btree.delete.h1 */
+#else
 	btreeDeleteX(&root, k, &out, h_free);
+#endif
 	CHECK("btreeDeleteX: still a well-formed B-tree (height shrinks only by dropping the root)", root == root0 ? WF(root, BT_H) : (BT_H > 1 && WF(root, BT_H - 1)));
 	CHECK("btreeDeleteX: one pair fewer", COUNT_ALL(root, BT_H) == n0 - 1);
 #ifndef CANARY_bt_delete
